@@ -435,7 +435,7 @@ impl FixedMethod {
     /// Checks if the Reph is moveable by the Reph insertion algorithm.
     fn is_reph_moveable(&self) -> bool {
         let mut buf_chars = self.buffer.chars().rev();
-        let right_most = buf_chars.next().unwrap();
+        let right_most = buf_chars.next().unwrap_or_default();
         let right_most = if right_most == B_CHANDRA {
             buf_chars.next().unwrap_or_default()
         } else {
